@@ -1,6 +1,26 @@
 import Tuc.Lemmas.Lines
 /-!
 # C05 — line mode, the one-line-at-a-time algorithm against the specification
+
+* `fwd_output` — `cutLinesForwardOnly` prints `linesOut … ++ [eol]` (the selected lines, byte for
+  byte, in request order, separated by the EOL or concatenated under `--no-join`, then one EOL)
+  and succeeds, for every plain forward-only request resolvable on the input;
+* `fwd_eq_spec` / `readAndCutLines_eq_spec` — hence it equals `specLines (cfgOf o)` (output and
+  status) on every input other than the empty one or a lone EOL;
+  (`Tuc.Props.C05Utf8.fwd_eq_spec_utf8`: the same with "the input is valid UTF-8" instead of "every
+  line is");
+* `fwd_trailing_eol`, `specLines_trailing_eol` (from `records_trailing_eol`) — one trailing EOL is
+  not an extra empty line;
+* `fwd_no_join`, `fwd_join` — the two shapes of the output;
+* `isForwardOnly_spec` (in `Tuc.Lemmas.Lines`) — `is_forward_only` in closed form.
+
+The `isLast` flag plays no role here (neither the walk nor the specification reads it), so the
+theorems hold for any plain list, in particular for what `markLast`/`fromVec` build
+(`markLast_plain`).
+
+Proof: induction over the lines still to read with the invariant `FwdInv` (what `add_newline_next`
+means for the pending bound) and the function `fwdRemOut` (what remains to be printed); one line
+is `fwdLine_step` (induction over the pending bounds: several bounds may end on the same line).
 -/
 namespace Tuc
 open Tuc.Spec
@@ -311,6 +331,39 @@ theorem readAndCutLines_eq_spec (o : Opt) (input : Bytes) (bs : List UserBounds)
   rw [hc, hp, hfwd]
   simp only [Bool.not_false, Bool.and_self, if_true]
   exact fwd_eq_spec o input bs hplain hfwd hres hutf h0 h1 hc
+
+/-- `markLast` keeps a plain list plain (it only sets a flag nothing here reads) -/
+theorem markLast_plain (bs : List UserBounds) (l' : List BoF)
+    (h : markLast (bs.map .bound) = some l') :
+    ∃ bs' : List UserBounds, l' = bs'.map .bound ∧ bs'.length = bs.length ∧
+      ∀ i (hi : i < bs'.length) (hi' : i < bs.length), bs'[i].l = bs[i].l ∧ bs'[i].r = bs[i].r ∧
+        bs'[i].fallback = bs[i].fallback := by
+  induction bs generalizing l' with
+  | nil => simp [markLast] at h
+  | cons b t ih =>
+    simp only [List.map_cons, markLast] at h
+    cases hm : markLast (t.map .bound) with
+    | none =>
+      rw [hm] at h
+      simp only [Option.some.injEq] at h
+      subst h
+      refine ⟨{ b with isLast := true } :: t, by simp, by simp, ?_⟩
+      intro i hi hi'
+      cases i with
+      | zero => simp
+      | succ j => simp
+    | some t' =>
+      rw [hm] at h
+      simp only [Option.some.injEq] at h
+      subst h
+      obtain ⟨ts, rfl, hlen, hsame⟩ := ih t' hm
+      refine ⟨b :: ts, by simp, by simp [hlen], ?_⟩
+      intro i hi hi'
+      cases i with
+      | zero => simp
+      | succ j =>
+        simp only [List.getElem_cons_succ]
+        exact hsame j (by simpa using hi) (by simpa using hi')
 
 /-! ## a single trailing EOL never counts as an extra empty line -/
 
